@@ -574,7 +574,7 @@ func factsSessionCodec(g string) {
 	}
 	// every obfuscate call passes a pooled buffer of streamSendBufferSize bytes; sends use buf[:n] with n from obfuscate
 	sends := 0
-	for _, key := range []string{"Stream.obfuscateAndSend", "Session.Close"} {
+	for _, key := range []string{"Stream.obfuscateAndSend", "Session.Close", "Session.tellRefusals"} {
 		f := fnOf(mx, key)
 		if f == nil {
 			continue
